@@ -90,7 +90,7 @@ def run(ctx):
     rc, cases, e = harness(exe, ["corr", "-seed", ctx.seed, "-n", n, "-exh", exh], 3000)
     if rc != 0:
         raise common.CheckError("harness corr failed rc=%s: %s" % (rc, e[-1000:]))
-    lines = [l for l in cases.splitlines() if l[:2] in ("R\t", "B\t", "G\t", "A\t", "T\t", "C\t", "Q\t", "X\t")]
+    lines = [l for l in cases.splitlines() if l[:2] in ("R\t", "B\t", "G\t", "A\t", "T\t", "C\t", "Q\t", "X\t", "I\t")]
     fails = [l.split("\t") for l in cases.splitlines() if l.startswith("FAIL\t")]
     stats = [l.split("\t") for l in cases.splitlines() if l.startswith("STATS\t")]
     res = common.run_model(model, "\n".join(lines) + "\n")
@@ -98,7 +98,7 @@ def run(ctx):
     distinct = len(set(l.split("\t", 2)[2] for l in lines))
     ctx.cov["evaluations"] += len(lines)
     ctx.cov["distinct_nontrivial"] += distinct
-    kinds = {k: sum(1 for l in lines if l.startswith(k + "\t")) for k in ("R", "B", "G", "A", "T", "C", "Q", "X")}
+    kinds = {k: sum(1 for l in lines if l.startswith(k + "\t")) for k in ("R", "B", "G", "A", "T", "C", "Q", "X", "I")}
     ctx.notes["correspondence"] = {
         "cases": len(lines), "mismatches": len(mism), "distinct_cases": distinct, "kinds": kinds,
         "exhaustive_shape_list_length": exh, "shape_alphabet": 29,
@@ -133,6 +133,9 @@ def run(ctx):
         elif f[0] == "EVALS":
             ctx.cov["evaluations"] += int(f[1])
             ctx.notes["search_evaluations"] = int(f[1])
+        elif f[0] == "INFO_REACHED":
+            ctx.notes["info_levels_0_2_reached"] = {"registered_types_decoded_and_printed_at_levels_0_1_2": int(f[1]), "registered_types": int(f[2]),
+                                                    "not_reached": f[3] if len(f) > 3 else ""}
         elif f[0] == "STATS":
             ctx.notes["search_worker_stats"] = {"worst_op_ns": int(f[1]), "on_bytes": int(f[2]),
                                                 "max_alloc_one_op": int(f[3]), "worker_restarts": int(f[4])}
